@@ -190,6 +190,19 @@ func runAmoCase(o *Oracle, d json.RawMessage, oc *Outcome) {
 	}
 	pb2, _ := c.problem()
 	pb2.DetectAtMostOne()
+	// detection run again on the problem it has already rewritten (a second call finds the groups
+	// that the first one made visible, or nothing): still the same models, by the same theorem
+	if pb2.Status != solver.Unsat {
+		nb1 := len(pb2.Clauses)
+		pb2.DetectAtMostOne()
+		if len(pb2.Clauses) != nb1 {
+			oc.Tag("second-detection-changes-the-problem")
+		}
+		oc.Tag("detected-twice")
+		if have2 := o.Models(n, problemLins(pb2)); !equalStrings(want, have2) {
+			oc.Fail("spec", "same-models", entry+" (second call on the same problem)", "%d models before, %d after two detections (constraints after: %v)", len(want), len(have2), problemLins(pb2))
+		}
+	}
 	if k := solver.New(pb2).CountModels(); k != len(want) {
 		oc.Fail("spec", "count", entry+"+CountModels", "count %d after detection, %d models", k, len(want))
 	}
